@@ -17,6 +17,7 @@ mod c04;
 mod c10;
 mod c16;
 mod c17;
+mod c19;
 mod c05;
 mod c06;
 mod c07;
@@ -51,6 +52,7 @@ fn dispatch_replay(prop: &str, w: &serde_json::Value) -> Vec<(String, String)> {
         "C15" => c15::replay(w),
         "C16" => c16::replay(w),
         "C17" => c17::replay(w),
+        "C19" => c19::replay(w),
         _ => vec![],
     }
 }
@@ -61,6 +63,10 @@ fn main() {
     if args.len() < 3 {
         eprintln!("usage: fpmc <ID> quick|thorough | fpmc replay <path>");
         std::process::exit(2);
+    }
+    if args[1] == "c19-exec" {
+        c19::executor_main();
+        return;
     }
     if args[1] == "replay" {
         let txt = std::fs::read_to_string(&args[2]).expect("read replay file");
@@ -106,6 +112,7 @@ fn main() {
         "C15" => c15::run(tier),
         "C16" => c16::run(tier),
         "C17" => c17::run(tier),
+        "C19" => c19::run(tier),
         other => {
             eprintln!("unknown property {}", other);
             2
